@@ -41,7 +41,7 @@ func init() {
 			{Name: "DIV-ZERO", What: "every integer division has a divisor shown non-zero on every path", Floor: 2, Run: ruleDivZero},
 			{Name: "NILRET", What: "no exported decoder/constructor returns a nil pointer result together with a nil error", Floor: 10, Run: ruleNilRet},
 			{Name: "ASSERT-CHECKED", What: "every type assertion without comma-ok in library code is behind a test of the same value for the same type, made from a value of that type, or in the reviewed table: an unchecked assertion on a value whose type the input chooses is a panic (added after eleventh-round seed C11-l)", Floor: 4, Run: ruleAssertChecked},
-			{Name: "ERR-LATCH", What: "bam.Reader.Read consults the record buffer's sticky error before it returns a record, on every path – the Omit modes leave early: a record shorter than its own fields claim is an error, not a value whose accessors index past what was read (shared with C05, C10; here since fifteenth-round seed C11-q)", Floor: 1, Run: ruleStickyErr([]latchCfg{{pkg: "bam", fn: "(*Reader).Read", typ: "buffer", fld: "err"}})},
+			{Name: "ERR-LATCH", What: "bam.Reader.Read consults the record buffer's sticky error before it returns a record, on every path – the Omit modes leave early: a record shorter than its own fields claim is an error, not a value whose accessors index past what was read (shared with C05, C10; here since fifteenth-round seed C11-o)", Floor: 1, Run: ruleStickyErr([]latchCfg{{pkg: "bam", fn: "(*Reader).Read", typ: "buffer", fld: "err"}})},
 			{Name: "TF-STREAM", What: "the CRAM stream readers slice a buffer that holds the longest encoding (5 bytes ITF-8, 9 bytes LTF-8) by the width the first byte announces (shared with C20; here since thirteenth-round seed C11-m: a shared 8-byte scratch field, and a first byte 0xff slices [1:9])", Floor: 2, Run: ruleTFStream},
 			{Name: "CSV-FIELDS", What: "the premise IDX-CONST trusts in fai.ReadFrom: csv.Reader.FieldsPerRecord is a positive constant above every constant record index, set once, before the first Read (added after eleventh-round seed C11-k)", Floor: 1, Run: ruleCSVFields},
 			{Name: "PANIC-REACH", What: "every explicit panic in library code is in the reviewed table (caller contract / internal / recovered)", Floor: 15, Run: rulePanicReach},
